@@ -169,7 +169,11 @@ type enc struct {
 	specSigs map[string]*specSig
 	axioms  []specAxiom
 	axUsed  map[string]bool
-	shapes  *shapeDB
+	syms    map[string]int
+	nodeCand map[Term]nodeCand
+	typeOfArg map[*ssa.Call]Term
+	storesOnly bool
+	dropAt  bool
 	wfSeen  map[string]bool
 	resultTerms []modelVar
 	finder  bool
